@@ -122,7 +122,7 @@ def machine(rng):
     return {'cores': cores, 'sockets': sockets, 'cpuinfo': 0}
 
 # ---- contents -----------------------------------------------------------------------------------------
-CONTENT_KINDS = ['mix', 'noise', 'flat', 'hgrad', 'vgrad', 'dgrad', 'moving', 'text', 'checker', 'rails', 'max', 'zero']
+CONTENT_KINDS = ['mix', 'grainy', 'noise', 'flat', 'hgrad', 'vgrad', 'dgrad', 'moving', 'text', 'checker', 'rails', 'max', 'zero']
 def content(rng, kinds=None, n=None):
     c = {'kind': rng.choice(kinds or CONTENT_KINDS), 'seed': rng.randint(1, 10**6)}
     if n is not None:
@@ -131,6 +131,8 @@ def content(rng, kinds=None, n=None):
         c['cut'] = rng.randint(1, max(1, (n or 8) - 1))
     if c['kind'] == 'flat':
         c['val'] = rng.choice([0, 16, 128, 235, 255])
+    if c['kind'] == 'grainy':
+        c['val'] = rng.choice([64, 128]); c.update(rng.choice([{}, {}, {'static': 1}, {'hold': rng.choice([2, 3])}]))
     return c
 
 # ---- configuration swarm ---------------------------------------------------------------------------------
